@@ -461,3 +461,34 @@ Proof.
       simpl. apply andb_true_iff. split; apply negb_true_iff; [apply String.eqb_neq; exact Hne|].
       destruct (available_in (flatten ixs) p) eqn:B; [apply available_in_spec in B; contradiction | reflexivity].
 Qed.
+
+(* ---- concurrent calls: every order of whole Gets ------------------------------------------------- *)
+Lemma indexes_of_In l x : In x (indexes_of l) <-> exists aa, In aa l /\ In x (List.concat (List.map snd aa)).
+Proof.
+  unfold indexes_of. rewrite in_concat. split.
+  - intros [m [Hm Hx]]. apply in_map_iff in Hm. destruct Hm as [aa [<- Haa]]. exists aa. auto.
+  - intros [aa [Haa Hx]]. exists (List.concat (List.map snd aa)). split; [|exact Hx].
+    apply in_map_iff. exists aa. auto.
+Qed.
+
+Lemma coherent_incl l l' : (forall aa, In aa l' -> In aa l) -> coherent l -> coherent l'.
+Proof.
+  intros I C x y Hx Hy E. apply indexes_of_In in Hx. apply indexes_of_In in Hy.
+  destruct Hx as [a [Ha Hx]]. destruct Hy as [b [Hb Hy]].
+  apply C; [apply indexes_of_In; exists a | apply indexes_of_In; exists b | exact E]; auto.
+Qed.
+
+Theorem concurrent_calls_serialised calls sched pre aa post :
+  Permutation sched calls -> Forall go_map calls -> coherent calls ->
+  sched = pre ++ aa :: post ->
+  forall o, In o (snd (dq_cache_get (run_calls pre) aa)) <-> In o (dq_objs aa).
+Proof.
+  intros P G C E o.
+  assert (I : forall x, In x (aa :: pre) -> In x calls).
+  { intros x Hx. apply (Permutation_in x P). rewrite E. apply in_or_app. destruct Hx as [->|Hx]; [right; left; reflexivity | left; exact Hx]. }
+  rewrite Forall_forall in G.
+  apply cache_own_grouping.
+  - apply G. apply I. left. reflexivity.
+  - apply Forall_forall. intros x Hx. apply G. apply I. right. exact Hx.
+  - exact (coherent_incl calls (aa :: pre) I C).
+Qed.
